@@ -311,11 +311,11 @@ def table_layout(context, table, bottom_space, skip_stack, containing_block,
                 next_position_y += border_spacing_y
 
             # Break if one cell was broken.
-            break_cell = False
+            break_cell = give_up_row = False
             if resume_at:
                 if all(child.empty for child in row.children):
                     # No cell was displayed, give up row.
-                    next_position_y = inf
+                    give_up_row = True
                     page_is_empty = False
                     resume_at = None
                 else:
@@ -323,7 +323,8 @@ def table_layout(context, table, bottom_space, skip_stack, containing_block,
 
             # Break if this row overflows the page, unless there is no
             # other content on the page.
-            overflow = context.overflows_page(bottom_space, next_position_y)
+            overflow = give_up_row or context.overflows_page(
+                bottom_space, next_position_y)
             if not page_is_empty and overflow:
                 remove_placeholders(context, row.children, absolute_boxes, fixed_boxes)
                 if new_group_children:
